@@ -118,8 +118,7 @@ def check(ctx) -> Result:
         nl += rl_iter.check_function(ctx, res, ctx.func(HER, qn))
     res.floor("L herald loops", nl, 1)
     ah = ctx.func(HER, "add_heralds_to_state")
-    loops = [l for l in walk_no_nested(ah.node) if isinstance(l, ast.For)]
-    res.add(bool(loops) and all(src(l.iter).startswith("range(") for l in loops), "L-herald-insertion-by-position", "add_heralds_to_state", ah.site(), ah.qualname, "walks mode positions", "iterates the herald dictionary (order dependent)", construct=src(loops[0].iter) if loops else "")
+    rl_iter.herald_insertion_by_position(ctx, res, ah)
     for qn in ("remove_heralds_from_state", "add_heralds_to_state"):
         f = ctx.func(HER, qn)
         s = ctx.eng.summary(f)
